@@ -50,6 +50,10 @@ def check_build(cx: Cx):
         where = cx.where(build, p.last.line)
         # ---- the product call
         prods = [e for e in p.events if e.kind == 'call' and e.data.get('callee_name') == 'itertools.product']
+        from .common import known_empty_on
+        if not prods and known_empty_on(p.cond, params) and isinstance(v, Fresh) and v.kind == 'list' and len(v.items) == 1 and \
+                isinstance(v.items[0], Fresh) and v.items[0].kind in ('dict', 'call:dict') and not v.items[0].items:
+            continue        # nothing declared: the product of zero lists is the one empty combination, [{}]
         if len(prods) != 1:
             others = [e.data.get('callee_name') for e in p.events if e.kind == 'call' and e.loops and e.data.get('via') != 'mutator']
             viol('R-GUARD', 'product-of-the-parameter-lists', f"build() must combine the per-parameter lists with itertools.product "
@@ -202,6 +206,8 @@ def _check_entry(cx, viol, kinds, key, value, entry, p, paths, table, loop_line,
             return
         if str_branch:
             kinds.add('str')
+        elif _exactly_a_scalar_type(p.cond, value, cx, is_str_atoms):
+            kinds.add('str')                # a str, or exactly an int / float / bool / complex / None (whose iteration would raise TypeError)
         elif handler and not_str:
             if handler[-1].data.get('type') not in ('TypeError',):
                 viol('R-GUARD', 'fallback-only-for-TypeError', f"the single-value fallback catches {handler[-1].data.get('type')}, "
@@ -368,3 +374,51 @@ def check_declaration(cx: Cx):
             cx.violation('R-DISC', s.fn.qualname, f"_parameters-{s.kind}", f"{s.describe()}: the declaration is written outside the "
                          f"constructor / add_parameter / remove_parameter (building must never change it)", where=s.where)
     cx.floor('_parameters write sites', len(sites), 4)
+
+
+_SCALARS = {'int', 'float', 'bool', 'complex', 'builtins.int', 'builtins.float', 'builtins.bool', 'builtins.complex', 'NoneType', 'types.NoneType'}
+
+
+def _exactly_a_scalar_type(cond, value, cx=None, str_atoms=()) -> bool:
+    """The path established `type(value) in (<non-iterable builtin types>)` or `type(value) == <one of them>`: the single-value
+    branch is taken for a value whose iteration would raise TypeError anyway."""
+    from sa.terms import AIn, Num
+    tv = App('type', (value,))
+
+    def scalar(t):
+        t = strip_versions(t)
+        if isinstance(t, Sym) and t.name in _SCALARS:
+            return True
+        return isinstance(t, App) and t.fn == 'type' and t.args == (Const(None),)
+    import ast as _ast
+    from sa.terms import f_or
+
+    def const_tuple_of_scalars(sym):
+        if cx is None or not isinstance(sym, Sym) or '.' not in sym.name:
+            return False
+        mod_, _, nm = sym.name.rpartition('.')
+        mi = cx.prog.modules.get(mod_)
+        v = mi.assigns.get(nm) if mi is not None else None
+        if not isinstance(v, (_ast.Tuple, _ast.List)) or not v.elts:
+            return False
+        for x in v.elts:
+            okx = (isinstance(x, _ast.Name) and x.id in ('int', 'float', 'bool', 'complex')) or \
+                (isinstance(x, _ast.Call) and isinstance(x.func, _ast.Name) and x.func.id == 'type' and len(x.args) == 1 and
+                 isinstance(x.args[0], _ast.Constant) and x.args[0].value is None)
+            if not okx:
+                return False
+        return True
+    cands = list(str_atoms)
+    for a in atoms_of(cond):
+        if isinstance(a, AIn) and strip_versions(a.x) == tv:
+            c_ = strip_versions(a.container)
+            if (isinstance(c_, TupleT) and all(scalar(x) for x in c_.items)) or const_tuple_of_scalars(c_):
+                cands.append(a)
+        if isinstance(a, AEq) and a.a == tv and scalar(a.b):
+            cands.append(a)
+    if len(cands) == len(list(str_atoms)):
+        return False
+    try:
+        return implies(cond, f_or(*cands)) is None
+    except Exception:
+        return False
